@@ -72,7 +72,7 @@ def _batch_proc(trie):
 
 
 class Handle:
-    __slots__ = ("trie", "prune", "model", "ver", "bgen", "btrie", "bmodel", "bver", "pre", "name", "bstart")
+    __slots__ = ("trie", "prune", "model", "ver", "bgen", "btrie", "bmodel", "bver", "pre", "name", "bstart", "stale")
 
     def __init__(self, trie, prune, name):
         self.trie = trie
@@ -86,6 +86,7 @@ class Handle:
         self.pre = None
         self.name = name
         self.bstart = -1
+        self.stale = None  # the handle of the last batch that ended (a client may have kept it)
 
 
 _ORIG_CACHED = HexaryTrie._cached_create_node_to_db_mapping
@@ -360,6 +361,7 @@ class HWorld:
 
     def _end_batch(self, h):
         h.bgen = None
+        h.stale = h.btrie
         h.btrie = None
         bm, h.bmodel = h.bmodel, None
         return bm
